@@ -1,4 +1,5 @@
 import PyaisVerif.Lemmas.FieldRT
+import PyaisVerif.Lemmas.MsgRTAux
 import PyaisVerif.Lemmas.Codec
 import PyaisVerif.Lemmas.Truncation
 /-!
@@ -16,7 +17,10 @@ def alignedField (E : EnumInfo) (f : Field) : Bool :=
 /-- decidable conditions on a field table under which the re-encoding theorem applies: distinct
 names, recognised kinds in both directions, positive widths, one-bit booleans, only the last field
 may be unaligned (variable length, or text of a ragged width), a variable-length last field is text
-or binary data without encode-side converter, binary of a whole number of octets -/
+or binary data without encode-side converter, binary of a whole number of octets, a fixed-width text
+last field holds at least one whole character (otherwise it is re-encoded as zero bits and comes
+back as `None`: `msg_reencode` is false for the one-field table `x : text, 3 bits` and the payload
+`000`) -/
 def TableRT (E : EnumInfo) (fromRot : List String) (fs : List Field) : Bool :=
   decide ((fs.map (·.name)).Nodup) &&
   (fs.all fun f => (match kindOf E f with
@@ -24,8 +28,9 @@ def TableRT (E : EnumInfo) (fromRot : List String) (fs : List Field) : Bool :=
       | none => false) && decide (0 < f.width) && (f.dtype != .bool || f.width == 1)) &&
   (fs.dropLast.all (alignedField E)) &&
   (match fs.getLast? with
-   | some f => !f.varlen || ((kindOf E f == some .t || (kindOf E f == some .d && f.width % 8 == 0)) &&
-                              f.fromConv == .none)
+   | some f => (!f.varlen || ((kindOf E f == some .t || (kindOf E f == some .d && f.width % 8 == 0)) &&
+                              f.fromConv == .none)) &&
+               (f.varlen || kindOf E f != some .t || decide (6 ≤ f.width))
    | none => true)
 
 /-- the payload length ends on a field boundary of the table, or inside its variable-length last
@@ -60,10 +65,459 @@ def RaggedTail (E : EnumInfo) (fs : List Field) (bits : Bits) : Prop :=
      (f.varlen = true ∧ kindOf E f = some .t ∧
         6 * (decodeAscii6 (bits.drop (widthSum fs.dropLast))).length ≠ bits.length - widthSum fs.dropLast))
 
+/-! ## the table conditions as propositions -/
+
+/-- what `TableRT` says, field by field (without the distinct names) -/
+structure FieldsOK (E : EnumInfo) (fromRot : List String) (fs : List Field) : Prop where
+  field : ∀ f ∈ fs, ∃ k, kindOf E f = some k ∧ fromConvOK E fromRot f k = true ∧ 0 < f.width ∧
+    (f.dtype = .bool → f.width = 1)
+  aligned : ∀ f ∈ fs.dropLast, f.varlen = false ∧ (kindOf E f = some .t → f.width % 6 = 0)
+  last : ∀ f, fs.getLast? = some f →
+    (f.varlen = true → (kindOf E f = some .t ∨ (kindOf E f = some .d ∧ f.width % 8 = 0)) ∧
+      f.fromConv = .none) ∧
+    (f.varlen = false → kindOf E f = some .t → 6 ≤ f.width)
+
+theorem tableRT_spec (E : EnumInfo) (fromRot : List String) (fs : List Field)
+    (ht : TableRT E fromRot fs = true) :
+    (fs.map (·.name)).Nodup ∧ FieldsOK E fromRot fs := by
+  unfold TableRT at ht
+  simp only [Bool.and_eq_true, decide_eq_true_eq, List.all_eq_true] at ht
+  obtain ⟨⟨⟨hnd, hf⟩, hal⟩, hlast⟩ := ht
+  refine ⟨hnd, ⟨?_, ?_, ?_⟩⟩
+  · intro f hfm
+    obtain ⟨⟨h1, h2⟩, h3⟩ := hf f hfm
+    cases hk : kindOf E f with
+    | none => rw [hk] at h1; simp at h1
+    | some k =>
+      rw [hk] at h1
+      refine ⟨k, rfl, h1, h2, ?_⟩
+      intro hd
+      simpa [hd] using h3
+  · intro f hfm
+    have h := hal f hfm
+    unfold alignedField at h
+    simp only [Bool.and_eq_true, Bool.not_eq_true', Bool.and_eq_false_iff] at h
+    refine ⟨by simpa using h.1, ?_⟩
+    intro hk
+    rcases h.2 with h2 | h2
+    · simp [hk] at h2
+    · simpa using h2
+  · intro f hfl
+    rw [hfl] at hlast
+    simp only [Bool.and_eq_true, Bool.or_eq_true, Bool.not_eq_true', beq_iff_eq, bne_iff_ne, ne_eq,
+      decide_eq_true_eq] at hlast
+    obtain ⟨h1, h2⟩ := hlast
+    refine ⟨?_, ?_⟩
+    · intro hv
+      rcases h1 with h1 | h1
+      · rw [hv] at h1; cases h1
+      · exact h1
+    · intro hv hk
+      rcases h2 with (h2 | h2) | h2
+      · rw [hv] at h2; cases h2
+      · exact absurd hk h2
+      · exact h2
+
+theorem FieldsOK.tail {E : EnumInfo} {fromRot : List String} {f g : Field} {fs : List Field}
+    (h : FieldsOK E fromRot (f :: g :: fs)) : FieldsOK E fromRot (g :: fs) := by
+  refine ⟨?_, ?_, ?_⟩
+  · intro x hx
+    exact h.field x (List.mem_cons_of_mem _ hx)
+  · intro x hx
+    apply h.aligned x
+    rw [List.dropLast_cons_cons]
+    exact List.mem_cons_of_mem _ hx
+  · intro x hx
+    apply h.last x
+    rw [List.getLast?_cons_cons]
+    exact hx
+
+/-! ## the hypotheses along the table -/
+
+theorem widthSum_nil : widthSum [] = 0 := rfl
+
+theorem widthSum_cons (f : Field) (fs : List Field) : widthSum (f :: fs) = f.width + widthSum fs := by
+  simp [widthSum]
+
+theorem offsetsFrom_shift (c o : Nat) (fs : List Field) :
+    offsetsFrom (c + o) fs = (offsetsFrom o fs).map (fun p => (p.1, c + p.2)) := by
+  induction fs generalizing o with
+  | nil => rfl
+  | cons f fs ih =>
+    simp only [offsetsFrom, List.map_cons]
+    rw [Nat.add_assoc, ih]
+
+theorem mem_offsets_head (f : Field) (fs : List Field) : (f, 0) ∈ offsetsFrom 0 (f :: fs) := by
+  simp [offsetsFrom]
+
+theorem mem_offsets_cons (f : Field) (fs : List Field) (p : Field × Nat)
+    (hp : p ∈ offsetsFrom 0 fs) : (p.1, f.width + p.2) ∈ offsetsFrom 0 (f :: fs) := by
+  have h := offsetsFrom_shift f.width 0 fs
+  rw [Nat.add_zero] at h
+  simp only [offsetsFrom, Nat.zero_add, h]
+  exact List.mem_cons_of_mem _ (List.mem_map_of_mem hp)
+
+theorem PadZero.head {E : EnumInfo} {f : Field} {fs : List Field} {bits : Bits}
+    (h : PadZero E (f :: fs) bits) (hk : kindOf E f = some .t) :
+    ∀ b ∈ (bits.take f.width).drop ((bits.take f.width).length / 6 * 6), b = false := by
+  have := h (f, 0) (mem_offsets_head f fs) hk
+  rw [fieldSlice_zero] at this
+  exact this
+
+theorem PadZero.tail {E : EnumInfo} {f : Field} {fs : List Field} {bits : Bits}
+    (h : PadZero E (f :: fs) bits) : PadZero E fs (bits.drop f.width) := by
+  intro p hp hk b hb
+  rw [fieldSlice_drop] at hb
+  exact h (p.1, f.width + p.2) (mem_offsets_cons f fs p hp) hk b hb
+
+theorem AllExact.head {env : Env} {E : EnumInfo} {fromRot : List String} {f : Field}
+    {fs : List Field} {bits : Bits} (h : AllExact env E fromRot (f :: fs) bits) (hne : bits ≠ [])
+    (k : Kind) (hk : kindOf E f = some k) : ExactField env E fromRot f k (bits.take f.width) := by
+  have hpos : 0 < bits.length := List.length_pos_iff.mpr hne
+  have := h (f, 0) (mem_offsets_head f fs) hpos k hk
+  rw [fieldSlice_zero] at this
+  exact this
+
+theorem AllExact.tail {env : Env} {E : EnumInfo} {fromRot : List String} {f : Field}
+    {fs : List Field} {bits : Bits} (h : AllExact env E fromRot (f :: fs) bits) :
+    AllExact env E fromRot fs (bits.drop f.width) := by
+  intro p hp hlt k hk
+  rw [fieldSlice_drop]
+  rw [List.length_drop] at hlt
+  exact h (p.1, f.width + p.2) (mem_offsets_cons f fs p hp) (by simp only; omega) k hk
+
+theorem OnBoundary.nil_table {L : Nat} (h : OnBoundary [] L) : L = 0 := by
+  rcases h with ⟨j, _, rfl⟩ | ⟨f, hf, _⟩
+  · simp [widthSum]
+  · simp at hf
+
+theorem OnBoundary.single {f : Field} {L : Nat} (h : OnBoundary [f] L) (hL : 0 < L) :
+    L ≤ f.width ∧ (f.varlen = false → L = f.width) := by
+  rcases h with ⟨j, hj, rfl⟩ | ⟨g, hg, hv, _, h2⟩
+  · cases j with
+    | zero => simp [widthSum] at hL
+    | succ j => simp [widthSum]
+  · simp only [List.getLast?_singleton, Option.some.injEq] at hg
+    subst hg
+    rw [widthSum_cons, widthSum_nil] at h2
+    refine ⟨by omega, ?_⟩
+    intro hv'
+    rw [hv] at hv'; cases hv'
+
+theorem OnBoundary.cons₂ {f g : Field} {fs : List Field} {L : Nat}
+    (h : OnBoundary (f :: g :: fs) L) (hL : 0 < L) :
+    f.width ≤ L ∧ OnBoundary (g :: fs) (L - f.width) := by
+  rcases h with ⟨j, hj, rfl⟩ | ⟨l, hl, hv, h1, h2⟩
+  · cases j with
+    | zero => simp [widthSum] at hL
+    | succ j =>
+      rw [List.take_succ_cons, widthSum_cons]
+      refine ⟨by omega, Or.inl ⟨j, ?_, by omega⟩⟩
+      simp only [List.length_cons] at hj ⊢
+      omega
+  · rw [List.getLast?_cons_cons] at hl
+    rw [List.dropLast_cons_cons, widthSum_cons] at h1
+    rw [widthSum_cons] at h2
+    exact ⟨by omega, Or.inr ⟨l, hl, hv, by omega, by omega⟩⟩
+
+theorem EmptyTextTail.cons {E : EnumInfo} {f g : Field} {fs : List Field} {bits : Bits}
+    (h : EmptyTextTail E (g :: fs) (bits.drop f.width)) : EmptyTextTail E (f :: g :: fs) bits := by
+  obtain ⟨l, hl, hv, hk, hlt, hd⟩ := h
+  refine ⟨l, by rw [List.getLast?_cons_cons]; exact hl, hv, hk, ?_, ?_⟩
+  · rw [List.length_drop] at hlt
+    rw [List.dropLast_cons_cons, widthSum_cons]
+    omega
+  · rw [List.drop_drop] at hd
+    rw [List.dropLast_cons_cons, widthSum_cons]
+    exact hd
+
+theorem RaggedTail.cons {E : EnumInfo} {f g : Field} {fs : List Field} {bits : Bits}
+    (h : RaggedTail E (g :: fs) (bits.drop f.width)) : RaggedTail E (f :: g :: fs) bits := by
+  obtain ⟨l, hl, hlt, hc⟩ := h
+  rw [List.length_drop] at hlt
+  refine ⟨l, by rw [List.getLast?_cons_cons]; exact hl, ?_, ?_⟩
+  · rw [List.dropLast_cons_cons, widthSum_cons]
+    omega
+  · rw [List.dropLast_cons_cons, widthSum_cons]
+    rw [List.length_drop, List.drop_drop] at hc
+    have e : bits.length - f.width - widthSum (g :: fs).dropLast
+        = bits.length - (f.width + widthSum (g :: fs).dropLast) := by omega
+    rw [e] at hc
+    exact hc
+
+/-! ## rows: field, decoded value, re-encoded bits -/
+
+/-- the statement of the theorem in terms of rows (field, decoded value, re-encoded bits) -/
+def Rows (env : Env) (E : EnumInfo) (fromRot : List String) (fs : List Field) (bits : Bits)
+    (l : List (Field × Val × Bits)) : Prop :=
+  l.map (·.1) = fs ∧
+  seqDecode env bits 0 fs = .ok (l.map fun p => (p.1.name, p.2.1)) ∧
+  (∀ p ∈ l, (p.2.1 = .none ∧ p.2.2 = []) ∨
+    (p.2.1 ≠ .none ∧ encodeField env p.1 p.2.1 = .ok p.2.2)) ∧
+  (¬ EmptyTextTail E fs bits →
+    seqDecode env (l.map (·.2.2)).flatten 0 fs = .ok (l.map fun p => (p.1.name, p.2.1))) ∧
+  (AllExact env E fromRot fs bits → ¬ RaggedTail E fs bits → (l.map (·.2.2)).flatten = bits)
+
+/-- nothing received: every field is absent, nothing is re-encoded -/
+theorem rows_nil_bits (env : Env) (E : EnumInfo) (fromRot : List String) (fs : List Field) :
+    Rows env E fromRot fs [] (fs.map fun f => (f, Val.none, [])) := by
+  have e1 : (fs.map fun f => (f, Val.none, ([] : Bits))).map (·.1) = fs := by
+    simp [List.map_map, Function.comp_def]
+  have e2 : ((fs.map fun f => (f, Val.none, ([] : Bits))).map fun p => (p.1.name, p.2.1))
+      = fs.map (fun f => (f.name, Val.none)) := by
+    simp [List.map_map, Function.comp_def]
+  have e3 : ((fs.map fun f => (f, Val.none, ([] : Bits))).map (·.2.2)).flatten = [] := by
+    rw [List.map_map]
+    exact flatten_map_nil fs
+  refine ⟨e1, ?_, ?_, ?_, ?_⟩
+  · rw [e2]; exact seqDecode_nil_bits env fs
+  · intro p hp
+    obtain ⟨f, _, rfl⟩ := List.mem_map.mp hp
+    exact .inl ⟨rfl, rfl⟩
+  · intro _
+    rw [e2, e3]; exact seqDecode_nil_bits env fs
+  · intro _ _
+    exact e3
+
+/-- the decoded value of a text / binary field -/
+theorem decodeField_td (env : Env) (E : EnumInfo) (f : Field) (k : Kind) (hk : kindOf E f = some k)
+    (hkind : k = .t ∨ k = .d) (bits : Bits) :
+    (k = .t → decodeField env f bits = .ok (.str (decodeAscii6 bits))) ∧
+    (k = .d → decodeField env f bits = .ok (.bytes (toBytes bits))) := by
+  obtain ⟨hs, ht, ha, hdt, hdd⟩ := kindOf_td E f k hk hkind
+  refine ⟨?_, ?_⟩
+  · intro h
+    rw [decodeField_plain _ _ _ ht ha, decodeRaw_unsigned _ _ hs, hdt h]
+  · intro h
+    rw [decodeField_plain _ _ _ ht ha, decodeRaw_unsigned _ _ hs, hdd h]
+
+/-- a table of one fixed-width field, completely present -/
+theorem rows_last_fixed (env : Env) (E : EnumInfo) (fromRot : List String)
+    (htab : TablesOk env E = true) (hrot : RotTablesOk env E fromRot = true)
+    (henum : EnumRTOk env E = true) (f : Field) (hok : FieldsOK E fromRot [f])
+    (hvar : f.varlen = false) (bits : Bits) (hlen : bits.length = f.width)
+    (hpad : PadZero E [f] bits) : ∃ l, Rows env E fromRot [f] bits l := by
+  obtain ⟨k, hk, hfk, hw, hb1⟩ := hok.field f (by simp)
+  have hne : bits ≠ [] := by intro h; rw [h] at hlen; simp at hlen; omega
+  have htake : bits.take f.width = bits := by rw [← hlen, List.take_length]
+  have hpad' : k = .t → ∀ b ∈ bits.drop (bits.length / 6 * 6), b = false := by
+    intro hkt
+    have := hpad.head (hkt ▸ hk)
+    rw [htake] at this
+    exact this
+  obtain ⟨v, b', hdec, hvn, henc, hbl, hdt, hdnt, hex⟩ :=
+    field_reencode env E fromRot htab hrot henum f k hk hfk hb1 hvar bits hlen hw hpad'
+  have h6 : k = .t → 6 ≤ f.width := fun hkt => (hok.last f rfl).2 hvar (hkt ▸ hk)
+  have hble : b'.length ≤ f.width := by
+    rw [hbl]; split <;> omega
+  have hbpos : 0 < b'.length := by
+    rw [hbl]; split
+    · rename_i hkt; have := h6 hkt; omega
+    · exact hw
+  have hbne : b' ≠ [] := List.length_pos_iff.mp hbpos
+  have hdec2 : decodeField env f b' = .ok v := by
+    by_cases hkt : k = .t
+    · have := hdt 0 hkt
+      simpa [zeros] using this
+    · exact hdnt hkt
+  refine ⟨[(f, v, b')], rfl, ?_, ?_, ?_, ?_⟩
+  · exact seqDecode_cons_zero env bits f [] v [] hne (by rw [htake]; exact hdec) rfl
+  · intro p hp
+    simp only [List.mem_singleton] at hp
+    subst hp
+    exact .inr ⟨hvn, henc⟩
+  · intro _
+    simp only [List.map_cons, List.map_nil, List.flatten_cons, List.flatten_nil, List.append_nil]
+    exact seqDecode_cons_zero env b' f [] v [] hbne
+      (by rw [List.take_of_length_le hble]; exact hdec2) rfl
+  · intro hae hnr
+    simp only [List.map_cons, List.map_nil, List.flatten_cons, List.flatten_nil, List.append_nil]
+    have hex' := hex (by have := hae.head hne k hk; rwa [htake] at this)
+    have hfull : b'.length = f.width := by
+      rw [hbl]; split
+      · rename_i hkt
+        have h60 : f.width % 6 = 0 := by
+          apply Classical.byContradiction
+          intro h6n
+          exact hnr ⟨f, rfl, by simp [widthSum]; omega, .inl ⟨hvar, hkt ▸ hk, h6n⟩⟩
+        omega
+      · rfl
+    rw [hex', hfull, ← hlen, List.take_length]
+
+/-- a table of one variable-length field (text, or binary data), partially or completely present -/
+theorem rows_last_varlen (env : Env) (E : EnumInfo) (fromRot : List String)
+    (f : Field) (hok : FieldsOK E fromRot [f])
+    (hvar : f.varlen = true) (bits : Bits) (hpos : 0 < bits.length) (hle : bits.length ≤ f.width)
+    (hpad : PadZero E [f] bits) : ∃ l, Rows env E fromRot [f] bits l := by
+  obtain ⟨k, hk, hfk, hw, hb1⟩ := hok.field f (by simp)
+  obtain ⟨hkd, hfc⟩ := (hok.last f rfl).1 hvar
+  have hkind : k = .t ∨ k = .d := by
+    rcases hkd with h | h
+    · rw [hk] at h; left; exact Option.some.inj h
+    · rw [hk] at h; right; exact Option.some.inj h.1
+  have hw8 : k = .d → f.width % 8 = 0 := by
+    intro hkd'
+    rcases hkd with h | h
+    · rw [hk, hkd'] at h; cases h
+    · exact h.2
+  have hne : bits ≠ [] := List.length_pos_iff.mp hpos
+  have htake : bits.take f.width = bits := List.take_of_length_le hle
+  have hpad' : k = .t → ∀ b ∈ bits.drop (bits.length / 6 * 6), b = false := by
+    intro hkt
+    have := hpad.head (hkt ▸ hk)
+    rw [htake] at this
+    exact this
+  obtain ⟨v, b', hdec, hvn, henc, hble, hne', hemp, hd8⟩ :=
+    varlen_reencode env E f k hk hkind hfc hvar hw8 bits ⟨hpos, hle⟩ hpad'
+  obtain ⟨hvt, hvd⟩ := decodeField_td env E f k hk hkind bits
+  have hws : widthSum ([f] : List Field).dropLast = 0 := rfl
+  refine ⟨[(f, v, b')], rfl, ?_, ?_, ?_, ?_⟩
+  · exact seqDecode_cons_zero env bits f [] v [] hne (by rw [htake]; exact hdec) rfl
+  · intro p hp
+    simp only [List.mem_singleton] at hp
+    subst hp
+    exact .inr ⟨hvn, henc⟩
+  · intro hett
+    simp only [List.map_cons, List.map_nil, List.flatten_cons, List.flatten_nil, List.append_nil]
+    have hvs : v ≠ .str [] := by
+      intro hv
+      rcases hkind with hkt | hkd'
+      · have h1 := hvt hkt
+        rw [hdec, hv] at h1
+        have h2 : decodeAscii6 bits = [] := by
+          injection h1 with h1; injection h1 with h1; exact h1.symm
+        exact hett ⟨f, rfl, hvar, hkt ▸ hk, by rw [hws]; exact hpos, by rw [hws, List.drop_zero]; exact h2⟩
+      · have h1 := hvd hkd'
+        rw [hdec, hv] at h1
+        injection h1 with h1
+        cases h1
+    obtain ⟨hbne, hdec2⟩ := hne' hvs
+    exact seqDecode_cons_zero env b' f [] v [] hbne
+      (by rw [List.take_of_length_le hble]; exact hdec2) rfl
+  · intro hae hnr
+    simp only [List.map_cons, List.map_nil, List.flatten_cons, List.flatten_nil, List.append_nil]
+    rcases hkind with hkt | hkd'
+    · -- text: a whole number of canonical characters
+      have h6 : 6 * (decodeAscii6 bits).length = bits.length := by
+        apply Classical.byContradiction
+        intro h6n
+        refine hnr ⟨f, rfl, by rw [hws]; exact hpos, .inr (.inr ⟨hvar, hkt ▸ hk, ?_⟩)⟩
+        rw [hws, List.drop_zero, Nat.sub_zero]
+        exact h6n
+      have hcw : CanonWire bits := by
+        have := hae.head hne k hk
+        rw [htake] at this
+        subst hkt
+        exact this
+      obtain ⟨b0, hb0, hb0e⟩ := hcw
+      subst hb0e
+      rw [← strToBin_exact _ _ f.width h6 hle] at hb0
+      obtain ⟨_, _, _, hdt, _⟩ := kindOf_td E f k hk (.inl hkt)
+      have hcore : encodeCore f (.str (decodeAscii6 b0)) = .ok b0 := by
+        simp only [encodeCore, hdt hkt, hvar, Bool.not_true]
+        exact hb0
+      have hconv : applyConv env f.fromConv (.str (decodeAscii6 b0)) = .ok (.str (decodeAscii6 b0)) := by
+        rw [hfc]; rfl
+      have henc2 := encodeField_of env f _ _ _ hconv hcore
+      have h1 := hvt hkt
+      rw [hdec] at h1
+      injection h1 with h1
+      rw [h1, henc2, htake] at henc
+      injection henc with henc
+      exact henc.symm
+    · have h8 : bits.length % 8 = 0 := by
+        apply Classical.byContradiction
+        intro h8n
+        refine hnr ⟨f, rfl, by rw [hws]; exact hpos, .inr (.inl ⟨hvar, hkd' ▸ hk, ?_⟩)⟩
+        rw [hws, Nat.sub_zero]
+        exact h8n
+      exact hd8 hkd' h8
+
+/-- one aligned field in front of a non-empty table -/
+theorem rows_cons (env : Env) (E : EnumInfo) (fromRot : List String)
+    (htab : TablesOk env E = true) (hrot : RotTablesOk env E fromRot = true)
+    (henum : EnumRTOk env E = true) (f g : Field) (fs : List Field)
+    (hok : FieldsOK E fromRot (f :: g :: fs)) (bits : Bits) (hne : bits ≠ [])
+    (hle : f.width ≤ bits.length) (hpad : PadZero E (f :: g :: fs) bits)
+    (l : List (Field × Val × Bits)) (hl : Rows env E fromRot (g :: fs) (bits.drop f.width) l) :
+    ∃ l', Rows env E fromRot (f :: g :: fs) bits l' := by
+  obtain ⟨k, hk, hfk, hw, hb1⟩ := hok.field f (by simp)
+  obtain ⟨hvar, hal⟩ := hok.aligned f (by rw [List.dropLast_cons_cons]; simp)
+  have hlen : (bits.take f.width).length = f.width := by
+    rw [List.length_take]; omega
+  obtain ⟨v, b', hdec, hvn, henc, hbl, hdt, hdnt, hex⟩ :=
+    field_reencode env E fromRot htab hrot henum f k hk hfk hb1 hvar (bits.take f.width) hlen hw
+      (fun hkt => hpad.head (hkt ▸ hk))
+  have hbl' : b'.length = f.width := by
+    rw [hbl]; split
+    · rename_i hkt
+      have := hal (hkt ▸ hk)
+      omega
+    · rfl
+  have hdec2 : decodeField env f b' = .ok v := by
+    by_cases hkt : k = .t
+    · have := hdt 0 hkt
+      simpa [zeros] using this
+    · exact hdnt hkt
+  obtain ⟨h1, h2, h3, h4, h5⟩ := hl
+  refine ⟨(f, v, b') :: l, ?_, ?_, ?_, ?_, ?_⟩
+  · simp [h1]
+  · exact seqDecode_cons_zero env bits f (g :: fs) v _ hne hdec h2
+  · intro p hp
+    rcases List.mem_cons.mp hp with rfl | hp
+    · exact .inr ⟨hvn, henc⟩
+    · exact h3 p hp
+  · intro hett
+    have h4' := h4 (fun h => hett h.cons)
+    simp only [List.map_cons, List.flatten_cons]
+    refine seqDecode_cons_zero env _ f (g :: fs) v _ ?_ ?_ ?_
+    · intro h
+      have := congrArg List.length h
+      rw [List.length_append, hbl'] at this
+      simp at this; omega
+    · rw [List.take_left' hbl']; exact hdec2
+    · rw [List.drop_left' hbl']; exact h4'
+  · intro hae hnr
+    have h5' := h5 hae.tail (fun h => hnr h.cons)
+    have hb'eq : b' = bits.take f.width := by
+      have := hex (hae.head hne k hk)
+      rw [hbl', List.take_take, Nat.min_self] at this
+      exact this
+    simp only [List.map_cons, List.flatten_cons]
+    rw [h5', hb'eq, List.take_append_drop]
+
+/-- every payload on a boundary of a good table has rows -/
+theorem rows_exist (env : Env) (E : EnumInfo) (fromRot : List String)
+    (htab : TablesOk env E = true) (hrot : RotTablesOk env E fromRot = true)
+    (henum : EnumRTOk env E = true) (fs : List Field) (hok : FieldsOK E fromRot fs)
+    (bits : Bits) (hb : OnBoundary fs bits.length) (hpad : PadZero E fs bits) :
+    ∃ l, Rows env E fromRot fs bits l := by
+  induction fs generalizing bits with
+  | nil =>
+    have h0 : bits = [] := List.eq_nil_of_length_eq_zero hb.nil_table
+    subst h0
+    exact ⟨_, rows_nil_bits env E fromRot []⟩
+  | cons f fs ih =>
+    by_cases hne : bits = []
+    · subst hne
+      exact ⟨_, rows_nil_bits env E fromRot (f :: fs)⟩
+    · have hpos : 0 < bits.length := List.length_pos_iff.mpr hne
+      cases fs with
+      | nil =>
+        obtain ⟨hle, hfix⟩ := hb.single hpos
+        cases hv : f.varlen with
+        | false => exact rows_last_fixed env E fromRot htab hrot henum f hok hv bits (hfix hv) hpad
+        | true => exact rows_last_varlen env E fromRot f hok hv bits hpos hle hpad
+      | cons g fs =>
+        obtain ⟨hle, hb'⟩ := hb.cons₂ hpos
+        obtain ⟨l, hl⟩ := ih hok.tail (bits.drop f.width)
+          (by rw [List.length_drop]; exact hb') hpad.tail
+        exact rows_cons env E fromRot htab hrot henum f g fs hok bits hne hle hpad l hl
+
 /-- `msg.to_bitarray()` only reads the fields by name -/
 theorem toBitarray_cls (env : Env) (fs : List Field) (c c' : String) (kv : List (String × Val)) :
     toBitarray env fs { cls := c, fields := kv } = toBitarray env fs { cls := c', fields := kv } := by
-  sorry
+  rfl
 
 /-- **C08, table-generic.** For every payload whose length ends on a field boundary (or inside the
 variable-length tail), padding bits zero: it decodes; the decoded message re-encodes; decoding the
@@ -79,6 +533,21 @@ theorem msg_reencode (env : Env) (E : EnumInfo) (fromRot : List String)
       toBitarray env fs { cls := cls, fields := kv } = .ok bits' ∧
       (¬ EmptyTextTail E fs bits → seqDecode env bits' 0 fs = .ok kv) ∧
       (AllExact env E fromRot fs bits → ¬ RaggedTail E fs bits → bits' = bits) := by
-  sorry
+  obtain ⟨hnd, hok⟩ := tableRT_spec E fromRot fs ht
+  obtain ⟨l, h1, h2, h3, h4, h5⟩ := rows_exist env E fromRot htab hrot henum fs hok bits hb hpad
+  refine ⟨l.map (fun p => (p.1.name, p.2.1)), (l.map (·.2.2)).flatten, h2, ?_, h4, h5⟩
+  rw [toBitarray_eq_fold]
+  have hnd' : (l.map (fun p : Field × Val × Bits => p.1.name)).Nodup := by
+    have : l.map (fun p : Field × Val × Bits => p.1.name) = fs.map (·.name) := by
+      rw [← h1, List.map_map]; rfl
+    rw [this]; exact hnd
+  have hfold := foldlM_enc env { cls := cls, fields := l.map (fun p => (p.1.name, p.2.1)) } l ?_ []
+  · rw [h1] at hfold
+    rw [hfold, List.nil_append]
+  · intro p hp
+    refine ⟨?_, h3 p hp⟩
+    unfold Msg.get
+    simp only
+    rw [lookup_map_nodup (fun p : Field × Val × Bits => p.1.name) (fun p => p.2.1) l hnd' p hp]
 
 end Model
